@@ -419,17 +419,22 @@ Definition rfc6298_rto (c:ccfg) (est:option (N*N)) : N :=
   end.
 Definition within_tolerance (observed expected:N) : bool :=
   absdiff observed expected <=? expected / 100000 + fx 1000.
-Definition mon_C15 (c:ccfg) (core:mstate) (s:rtt_mon) (op:mop) (o:obs) : rtt_mon * bool :=
+Definition mon_C15 (mc:mcfg) (c:ccfg) (core:mstate) (s:rtt_mon) (op:mop) (o:obs) : rtt_mon * bool :=
   if cc_reliable c then (s, true) else
   match op with
-  | MSend now _ r _ _ =>
+  | MSend now id r _ _ =>
       match ob_ret o with
       | OOk =>
           let est := match rm_last s with
                      | Some l => if 600000000000 <? now - l then None else rm_est s
                      | None => rm_est s end in
+          (* what is judged is the interval the request was actually ARMED with (the duration of its pending timer in
+             the snapshot after the call), and the estimator value the hook reports as well *)
+          let armed := match find (fun e => h_ident e =? id) (ob_H o) with Some e => snd e | None => r end in
           ({| rm_est := est; rm_last := Some now; rm_poisoned := rm_poisoned s |},
-           rm_poisoned s || within_tolerance (fx r) (rfc6298_rto c est))
+           (* with Rc = 1 there is no retransmission: the only timer is the final wait of Rm * RTO *)
+           rm_poisoned s || (within_tolerance (fx r) (rfc6298_rto c est)
+                             && within_tolerance (fx armed) ((if mc_rc mc =? 1 then mc_rm mc else 1) * rfc6298_rto c est)))
       | _ => (s, true)
       end
   | MRecv now _ _ =>
@@ -457,7 +462,7 @@ Definition monitor_step (c:mcfg) (cc:ccfg) (s:mall) (op:mop) (o:obs) : mall * li
   let core' := next_state core op o in
   let '(st', v07) := mon_C07 cc (ma_st s) (ms_marked core) op o in
   let '(lt', v08) := mon_C08 cc (ma_lt s) op o in
-  let '(rt', v15) := mon_C15 cc core (ma_rtt s) op o in
+  let '(rt', v15) := mon_C15 c cc core (ma_rtt s) op o in
   ({| ma_core := core'; ma_st := st'; ma_lt := lt'; ma_rtt := rt' |},
    [(5, mon_C05 core core' o, 0); (6, mon_C06 c core op o, 0); (11, mon_C11 core' op o, 0); (12, mon_C12 c core op o, 0);
     (17, mon_C17 c core op o, 0); (3, match ob_ret o with OPanic => false | _ => true end, 0);
